@@ -324,11 +324,13 @@ Lemma m_restr_match_spec r t :
   is_userset_user (t_user t) = true -> (match r with RBare _ => false | _ => true end) = true ->
   m_restr_match r t = restr_ok r t.
 Proof.
-  intros Hus Hnb. unfold m_restr_match, restr_ok. destruct r as [ty rel|ty|ty]; simpl; [| |discriminate].
+  intros Hus Hnb. unfold m_restr_match, restr_ok.
+  destruct r as [ty rel|ty|ty]; cbn [m_restr_type m_restr_rel]; [| |discriminate Hnb].
   - rewrite (beqb_sym ty), (beqb_sym rel). reflexivity.
-  - rewrite (beqb_sym ty). f_equal. unfold is_wildcard_user. unfold is_userset_user in Hus.
-    rewrite (beqb_sym []). destruct (beqb (u_rel (t_user t)) []); simpl in *; [|reflexivity].
-    rewrite Hus. reflexivity.
+  - rewrite (beqb_sym ty), (beqb_sym [] (u_rel (t_user t))). f_equal.
+    unfold is_wildcard_user. unfold is_userset_user in Hus.
+    destruct (beqb (u_rel (t_user t)) []); [|rewrite andb_false_r; reflexivity].
+    cbn [negb orb] in Hus. rewrite Hus. reflexivity.
 Qed.
 
 Lemma existsb_restr_spec rs t :
